@@ -28,13 +28,14 @@ func init() {
 				"copy QueryLogEnabled and IPLogEnabled from the fields of the same name, and newRequestInfo re-initialises every " +
 				"field of the pooled request information on every path, so a request never inherits the previous request's profile.",
 			NotCovered: "JSON well-formedness of arbitrary field contents (encoding/json trusted); atomicity of O_APPEND writes in the kernel.",
-			Rules: map[string]string{"C15-R14": "profile lookups by linked / dedicated IP re-check the device's current address; isBlockedByAccess returns the profile's verdict (shared with C14-R4, C10-R1)", "C15-R13": "no named (non-error) result is hidden by a same-typed short variable declaration and then returned by name outside that scope (typed-AST rule over the whole repository)", "C15-R12": "no whole-struct copy of a dns.Msg (the copy shares Question and the RR slices with the logged request); pool constructors build fresh buffers", "C15-R11": "clone methods of filtering results copy every field (list and rule IDs are what gets logged)", "C15-R1": "recordQueryInfo gates and entry provenance", "C15-R2": "sole callers of log/billing sinks; record only after the write",
+			Rules: map[string]string{"C15-RC": "class rules (error chains, shadowed results, character classes, crossed arguments, pool constructors, array pools, loop completeness, loop-carried buffers, replacing setters, complete clones, Grow arithmetic, pooled-buffer escape, sorted searches, fresh decode targets, per-iteration objects, whole-message copies, codec guards) over the packages this property rests on", "C15-R14": "profile lookups by linked / dedicated IP re-check the device's current address; isBlockedByAccess returns the profile's verdict (shared with C14-R4, C10-R1)", "C15-R13": "no named (non-error) result is hidden by a same-typed short variable declaration and then returned by name outside that scope (typed-AST rule over the whole repository)", "C15-R12": "no whole-struct copy of a dns.Msg (the copy shares Question and the RR slices with the logged request); pool constructors build fresh buffers", "C15-R11": "clone methods of filtering results copy every field (list and rule IDs are what gets logged)", "C15-R1": "recordQueryInfo gates and entry provenance", "C15-R2": "sole callers of log/billing sinks; record only after the write",
 				"C15-R3": "single append write from the pooled buffer", "C15-R4": "result switches exhaustive", "C15-R5": "every field of the entry is written",
 				"C15-R6": "the logging opt-in flags are copied name-to-name by the backend and file-cache conversions; the recycled request-information object (which carries the profile attribution) is fully re-initialised"},
 		}})
 }
 
 func runC15(c *an.Ctx) {
+	classSweep(c, "C15")
 	dnssvcWiring(c, "C15-R10", func(dst, src string) bool {
 		n := normName(dst) + " " + normName(src)
 		return strings.Contains(n, "querylog") || strings.Contains(n, "billstat")
